@@ -304,7 +304,11 @@ func (S *Scanner) scanChar(pos token.Position) {
 
 func (S *Scanner) scanIdentifier(pos token.Position) token.Type {
 	ch0 := S.ch
-	for isLetter(S.ch) || isDigit(S.ch) || S.ch == '!' {
+	if S.ch == '!' {
+		// '!' only begins the name of an ignored token; it is not part of an identifier
+		S.next()
+	}
+	for isLetter(S.ch) || isDigit(S.ch) {
 		S.next()
 	}
 	switch {
